@@ -53,12 +53,11 @@ Local Notation cls := (classify_nested leval).
 Local Notation attrs := (ns_attrs sub).
 Local Notation n := (N.of_nat (length (ns_vals sub))).
 
-Definition pv (i : N) : pyv := PyV (val_at sub i).
-Definition rtext (i : N) : str := repr (pv i).
+Local Notation pv := (TextFmtSpec.pv sub).
+Local Notation rtext := (TextFmtSpec.rtext repr sub).
+Local Notation vtext_ok := (TextFmtSpec.vtext_ok repr sub).
 
-(* the texts of flat index i *)
-Definition vtext_ok (i : N) : bool :=
-  dstr_ok (ns_dstr sub i) && nolb (ns_descr sub i) && nested_repr_ok (rtext i).
+(* the texts of flat index i are well formed and literal_eval reads the value back *)
 Definition idx_ok (i : N) : Prop := vtext_ok i = true /\ leval (rtext i) = Ok (pv i).
 
 Hypothesis Hidx : forall i, (i < n)%N -> idx_ok i.
